@@ -274,7 +274,10 @@ def identify(
     if verify and len(objects) != 1:
         raise click.BadParameter("verification requires a single object")
 
-    if recursive and not os.path.isdir(objects[0]):
+    if recursive and not (
+        os.path.isdir(objects[0])
+        and (follow_symlinks or not os.path.islink(objects[0]))
+    ):
         recursive = False
         logging.warn("recursive option disabled, input is not a directory object")
 
